@@ -246,3 +246,92 @@ def check_unused(prop, tier, seed):
     mine = [v for v in agg["viols"] if v["prop"] == prop]
     write_json(os.path.join(wd, "findings.json"), [{"sig": sig_of(v), "what": v.get("what")} for v in agg["viols"]])
     return verdict(prop, tier, seed, "model_checking", coverage, mine, assumptions, t0, replay_writer)
+
+
+RT_CFG = """SPECIFICATION Spec
+CONSTANTS Threads = {%s} Inputs = {1, 2} PerThread = 2 Shared = %s NoClear = %s
+INVARIANT Deterministic
+PROPERTY Frame
+CHECK_DEADLOCK FALSE
+"""
+
+
+def check_threads(prop, tier, seed):
+    """C14: design-level model (Runtime.tla, all interleavings) + conformance of the real runtime:
+    compile twice, fresh vs cleared runtime, concurrent threads sharing one Program."""
+    t0 = time.time()
+    wd = workdir(f"{prop}_{tier}")
+    build_harness()
+    thr = "t1, t2, t3"
+    out = tlc("Runtime.tla", RT_CFG % (thr, "FALSE", "FALSE"), wd, workers=min(8, NCPU), name="Runtime_ok", timeout=1800)
+    if "No error has been found" not in out:
+        raise ToolError("Runtime.tla: the design-level model does not satisfy Deterministic/Frame:\n" + out[-2000:])
+    mst, mtr = tlc_stats(out)
+    # vacuity guard: each named deviation must break the invariant
+    for nm, sh, nc in (("shared", "TRUE", "FALSE"), ("noclear", "FALSE", "TRUE")):
+        o = tlc("Runtime.tla", RT_CFG % (thr, sh, nc), wd, workers=4, name="Runtime_" + nm, timeout=600, allow_error=True)
+        if "Invariant Deterministic is violated" not in o:
+            raise ToolError(f"Runtime.tla: deviation {nm} does not violate Deterministic (vacuous model)")
+    # programs: the control-flow, closure and coalescing grammars (+ every stdlib example)
+    cases = []
+    gst = gtr = 0
+    events = None
+    for focus in (["C09", "C13", "C08"] if tier == "quick" else ["C09", "C13", "C08", "C06", "C07", "C34"]):
+        cs, ev, a, b = generate(focus, tier if focus != "C13" else "quick", wd)
+        if focus != "C13":
+            events = events or ev
+        cases += cs
+        gst += a
+        gtr += b
+    import random
+    rnd = random.Random(seed)
+    if tier == "quick" and len(cases) > 400:
+        cases = rnd.sample(cases, 400)
+    for i, c in enumerate(cases):
+        c["id"] = i + 1
+    log(f"[{prop}] {len(cases)} generated programs + stdlib examples ({time.time()-t0:.0f}s)")
+    reps = 3 if tier == "quick" else 20
+    traces = replay(cases, events, wd, 2, extra=["--examples", "--threads", "8", "--reps", str(reps)], sub="threads")
+    log(f"[{prop}] replayed ({time.time()-t0:.0f}s)")
+    agg = aggregate(validate(traces, wd))
+    cnt = agg["cnt"]
+    dump_findings_simple(agg, wd)
+    conc = 0
+    nprog = 0
+    samples = []
+    for t in traces:
+        with open(t) as f:
+            for l in f:
+                if l.startswith('{"e":"detcmp"'):
+                    j = json.loads(l)
+                    nprog += 1
+                    conc += j.get("concurrent_runs", 0)
+                    if len(samples) < 4 and j.get("accepted"):
+                        samples.append({"program": j["src"], "threads": j.get("threads"), "concurrent_runs": j.get("concurrent_runs"),
+                                        "distinct_outcomes_per_event": [len(p["conc"]) for p in j["per_event"]]})
+
+    def replay_writer(v):
+        with open(v["_file"]) as f:
+            line = f.readlines()[v["line"] - 1]
+        return {"engine": "A/threads", "record": json.loads(line)}
+
+    coverage = {
+        "states": mst + gst + agg["states"], "transitions": mtr + gtr + agg["transitions"],
+        "traces_validated_against_impl": cnt.get("runs", 0) - cnt.get("skipped_runs", 0),
+        "samples": samples, "evaluations": conc, "distinct_nontrivial": nprog,
+        "rule": "Runtime.tla: all interleavings of 3 threads x 2 events each over a shared immutable program (exhaustive). "
+                "Conformance: every program (TLC-generated from the C08/C09/C13 grammars + every stdlib example without "
+                "nondeterministic calls) is compiled twice, run on fresh runtimes, on one runtime cleared between events "
+                "in two orders, and by 8 threads sharing the Program (rotated event orders, seeded yields); a program is "
+                "one non-trivial case; real OS schedules are sampled, not enumerated",
+        "model_states": mst, "programs": nprog, "concurrent_runs": conc, "repetitions_per_thread": reps,
+        "exhaustive": False,
+    }
+    assumptions = ["real thread schedules are sampled (no loom/shuttle instrumentation inside vrl); the exhaustive part is the model's",
+                   "functions now, random_*, uuid_v4/v7, get_hostname, get_env_var, dns_lookup, reverse_dns, http_request, get_timezone_name are exempt"]
+    mine = [v for v in agg["viols"] if v["prop"] == prop]
+    return verdict(prop, tier, seed, "model_checking", coverage, mine, assumptions, t0, replay_writer)
+
+
+def dump_findings_simple(agg, wd):
+    write_json(os.path.join(wd, "findings.json"), [{"sig": sig_of(v), "what": v.get("what"), "line": v.get("line"), "file": v.get("_file")} for v in agg["viols"]])
